@@ -293,6 +293,8 @@ def stepLine (s : DState) (w : List String) : DState × String :=
     | ["rmdev", id] => ({ s with stats := upsert s.stats sid (statusRemoveDev st (nat! id % 65536)) }, "ok")
     | ["rmif", dev, id] => ({ s with stats := upsert s.stats sid (statusRemoveIf st (nat! dev % 65536) (nat! id % 2 ^ 32)) }, "ok")
     | ["clear"] => ({ s with stats := upsert s.stats sid [] }, "ok")
+    -- this tracker becomes a COPY of another one (Status copy assignment): a value, nothing shared afterwards
+    | ["copyfrom", other] => if has s.stats other then ({ s with stats := upsert s.stats sid (lookup s.stats other) }, "ok") else (s, "bad-op")
     | ["idx", id] => (s, s!"idx={indexOfDev st (nat! id % 65536)} count={st.length}")
     | ["ifidx", dev, id] =>
       let i := indexOfDev st (nat! dev % 65536)
